@@ -574,7 +574,33 @@ def check_C07(ctx):
             nb += 1
             relation_violation(ctx, 'C07_U_and_A_label_agree', {'u_label': hx(d), 'a_label': hx(a), 'rc_u': res.get(hx(d)), 'rc_a': res.get(hx(a)),
                                'explanation': 'U-label and A-label spelling of the same domain classified differently in mode 6531'})
-    return finish(ctx, rule='T cases: is_tld on labels; E/U cases with TLD checking on; table = tld_list[] dumped from the library built on this run; projection = result code',
+    # time-boxed sweep of is_tld over ALL labels over [a-z0-9-], shortest first, one process per first character: an unlisted label that gets
+    # a class (a look-up that no longer compares the whole name: hashing, a trie cut short) shows within the box exactly when the look-up is fast
+    import subprocess
+    from concurrent.futures import ThreadPoolExecutor
+    secs = 2 if not ctx.thorough() else 20
+    drv = ctx.snap.lib().drv()
+    def zrun(c):
+        try:
+            p = subprocess.run([drv], input=('Z %s %d\n' % (c, secs)).encode(), stdout=subprocess.PIPE, stderr=subprocess.DEVNULL, timeout=secs * 4 + 60)
+            return p.stdout.decode('utf-8', 'replace').strip()
+        except subprocess.TimeoutExpired:
+            return 'TIMEOUT'
+    firsts = 'abcdefghijklmnopqrstuvwxyz0123456789-'
+    with ThreadPoolExecutor(vlib.NCPU) as ex:
+        zo = list(ex.map(zrun, firsts))
+    zl = ['Z %s %d' % (c, secs) for c in firsts]
+    ctx.rep.add_cases('Z-sweep(all short labels)', zl, zo, lambda ln, o: True,
+                      note='is_tld on every label over [a-z0-9-] in order of length for %d s per first character; tried %d labels, every length <= %d completed; expected class from tld_list[] by whole-name lookup'
+                           % (secs, sum(int(o.split(' ')[0]) for o in zo if o and o.split(' ')[0].isdigit()), min([int(o.split(' ')[1]) for o in zo if len(o.split(' ')) > 1 and o.split(' ')[1].isdigit()] or [0])))
+    nb = 0
+    for l, o in zip(zl, zo):
+        for tok in o.split(' ')[2:]:
+            if '=' in tok and nb < 3:
+                nb += 1; lab, gw = tok.split('=')
+                relation_violation(ctx, 'C07_lookup_whole_label', {'case': 'T %s' % hx(lab.encode()), 'label': lab, 'is_tld': gw.split('/')[0], 'expected_from_tld_list': gw.split('/')[1],
+                                   'explanation': 'is_tld gives this label a class / verdict other than the one of the row of tld_list[] with exactly this name (-26 = no such row: invalid TLD)'})
+    return finish(ctx, rule='T cases: is_tld on labels; E/U cases with TLD checking on; Z cases: time-boxed exhaustive sweep of short labels; table = tld_list[] dumped from the library built on this run; projection = result code',
                   extra_trusted=['libidn2 2.3.3 as IDN oracle'])
 
 # ------------------------------------------------------------------ C09
